@@ -387,6 +387,17 @@ def fresh_like(v, name):
         return DSRefV(smt.fresh(name, smt.DS))
     if isinstance(v, ExcV):
         return ExcV(smt.fresh(name, smt.Exc))
+    if isinstance(v, SymSeqV):
+        probe = v.at(z3.Int('_probe'))
+        sort = {IntV: smt.Int, KeyV: smt.Key, ObjV: smt.Obj}.get(type(probe))
+        if sort is None:
+            return None
+        ln = smt.fresh(name + '_len', smt.Int)
+        fn = z3.Function('%s_elem!%d' % (name, next(smt._counter)), smt.Int, sort)
+        cls = type(probe)
+        r = SymSeqV(ln, lambda e: cls(fn(e)), v.pytype)
+        r.fresh_len_nonneg = ln >= 0
+        return r
     if isinstance(v, (NoneV, StrV, OpaqueV, OpaqueStrV)):
         # a variable that is None/str before the loop may hold something else after
         # an iteration; the caller decides (see Engine._havoc)
